@@ -370,6 +370,13 @@ class Recorder:
             if act['op'] == 'raise':
                 continue
             self.do_listener_action(act)
+        if ph == 'upd' and self.in_purge() and script.get('raise_purge'):
+            # ... or when the periodic purge reports the records it removed
+            k = script.setdefault('_purge_calls', 0) + 1
+            script['_purge_calls'] = k
+            if k % script['raise_purge'] == 0:
+                self.ev('uexc')
+                raise simnet.HarnessFault('listener raises in the purge')
         if ph == 'upd' and not self.in_purge() and ((safe and script.get('raise_safe')) or script.get('raise_any')):
             k = script.setdefault('_raise_calls', 0) + 1
             script['_raise_calls'] = k
@@ -589,7 +596,7 @@ def gen_scenario(rng: random.Random, sid: str, n_dgrams: int, with_dups: bool = 
     steps.append({'op': 'ladd', 'lid': 1, 'snap': False})
     for lid in range(2, listeners + 1):
         script = None
-        if lscripts and rng.random() < 0.7:
+        if lscripts is True and rng.random() < 0.7:
             script = {}
             k = rng.randint(1, 3)
             tgt = rng.randint(2, listeners + 1)
@@ -599,12 +606,15 @@ def gen_scenario(rng: random.Random, sid: str, n_dgrams: int, with_dups: bool = 
             if rng.random() < 0.3:
                 # ... and somebody removes a listener again that has been removed already
                 script[f"{rng.choice(['upd', 'done'])}{k + 2}"] = [{'op': 'lrem', 'lid': rng.choice([tgt, lid]), 'again': True}]
-        if lscripts and rng.random() < 0.25:
+        if lscripts == 'purge':
+            # (C05: only the fault in the purge -- the purges that follow it are what is judged)
+            script = {'raise_purge': rng.choice([1, 1, 2])} if rng.random() < 0.6 else None
+        elif lscripts and rng.random() < 0.25:
             script = dict(script or {})
             # a faulty listener: raises on every k-th call that is a pure refresh (raise_safe) or on every k-th call whatever the
             # datagram holds (raise_any: what that datagram adds or removes may then be lost -- both outcomes are accepted --
             # but nothing of it may leak into the datagrams that follow)
-            script[rng.choice(['raise_safe', 'raise_any'])] = rng.choice([1, 2, 3])
+            script[rng.choice(['raise_safe', 'raise_any', 'raise_purge'])] = rng.choice([1, 2, 3])
         steps.append({'op': 'ladd', 'lid': lid, 'script': script, 'snap': False})
     ids = list(VOCAB)
     ptr_ids = [1, 2, 3]
